@@ -52,7 +52,7 @@ RULE = ("streams of 3-20 top-level forms mixing defreader (bodies logging at rea
         "fresh HyReader probes in between. Non-trivial = stream in which a definition (or require) and a use of it are in "
         "different top-level forms, in a case where another module is involved; distinct by (stream text, mode).")
 FLOOR = {"quick": 500, "thorough": 500}
-BUDGET = {"quick": 35, "thorough": 480}
+BUDGET = {"quick": 30, "thorough": 480}
 CASE_TIMEOUT = 30
 NEEDS_EVENTS = True
 ANCHORS = ["hy.reader:read_many", "hy.reader.hy_reader:HyReader.tag_dispatch", "hy.reader.hy_reader:HyReader.try_parse_one_form",
@@ -88,10 +88,14 @@ class Lex(Exception):
 def read_x(x, T, ev):
     """Read element x with table T; append read-time events; return the form it denotes (or None)."""
     k = x[0]
-    if k == "log":
+    if k in ("log", "int"):
         return x
     if k == "do":
         return ["do", [f for f in [read_x(c, T, ev) for c in x[1]] if f is not None]]
+    if k == "len":
+        # a quoted list of reader-macro uses: only the number of forms they produced is observed
+        n = len([f for f in [read_x(c, T, ev) for c in x[3]] if f is not None])
+        return ["log", f"L{x[1]}={n}", x[2]]
     d = T.get(x[1])
     if d is None:
         raise Lex(x[1])
@@ -196,10 +200,21 @@ class SG:
             if d["kind"] == "noparse":
                 return ["use0", n]
             return ["use1", n, self.x(depth + 1, need_form=True)]
-        body = [self.x(depth + 1) for _ in range(rng.randint(1, 3))]
-        if need_form:
-            pass    # a `do` is always a form, even when empty after dropping Nones
-        return ["do", body]
+        if r < 0.9 and names:
+            # (HVLEN "L.." '[#a 7 #b 8]): how many forms did the uses yield?
+            els = []
+            for _ in range(rng.randint(1, 4)):
+                n = rng.choice(list(self.T))
+                if rng.random() < 0.3:
+                    els.append(["int"])
+                elif self.T[n]["kind"] == "noparse":
+                    els.append(["use0", n])
+                else:
+                    els.append(["use1", n, ["int"]])
+            self.split = True
+            return ["len", self.nid(), rng.choice(["C", "E"]), els]
+        # a `do` is always a form, even when empty after dropping Nones
+        return ["do", [self.x(depth + 1) for _ in range(rng.randint(1, 3))]]
 
     def gen(self, nforms):
         rng = self.rng
@@ -273,6 +288,11 @@ def render_x(x):
     k = x[0]
     if k == "log":
         return render_log(x)
+    if k == "int":
+        return "7"
+    if k == "len":
+        call = f'(HVLEN "{x[2]}L{x[1]}" \'[' + " ".join(render_x(c) for c in x[3]) + "])"
+        return f"(eval-when-compile {call})" if x[2] == "C" else call
     if k == "do":
         return "(do " + " ".join(render_x(c) for c in x[1]) + ")"
     if k == "use0":
@@ -439,6 +459,13 @@ def load_stream(env, modname, st, logger):
     return exc, m
 
 
+def _xkinds(x, T):
+    out = {"x:" + x[0]}
+    for c in (x[1] if x[0] == "do" else x[3] if x[0] == "len" else [x[2]] if x[0] == "use1" else []):
+        out |= _xkinds(c, T)
+    return out
+
+
 def run_case(case):
     import hy
     from hy.reader.exceptions import LexException
@@ -474,6 +501,10 @@ def run_case(case):
                 res["events"] += len(got_log)
                 classes += [f"role:{role}", f"mode:{st['mode']}", "outcome:" + ("lex" if want_err else "ok")]
                 kinds = {it[0] for ch in st["chunks"] for it in ch}
+                for ch in st["chunks"]:
+                    for it in ch:
+                        for x in (it[2] if it[0] == "dodef" else [it[1]] if it[0] == "x" else []):
+                            kinds |= _xkinds(x, dfinal)
                 classes += ["item:" + k for k in kinds]
                 label = f"stream {role} ({st['mode']})"
                 text = "\n;; --- next chunk\n".join(st["texts"])
